@@ -47,6 +47,7 @@ def run(ctx):
     ctx.rule('R05.1', 'non-conflict arms (untouched, one-sided, identical) are the first arms any such chunk/op pair can reach and are strategy-free; '
              'onesided/agreement create unconflicted decisions', floor=20)
     ctx.rule('R05.2', 'strategies only ever touch conflicted decisions: entry guards has_conflicted(), per-decision stores under d.conflict', floor=10)
+    ctx.rule('R05.4', 'adjacent assignments to a local/remote pair of names are mirror images of each other (no side reads the other side\'s data)', floor=30)
     ctx.rule('R05.3', 'local/remote mirror symmetry: every arm of the merger dispatch chains is self-mirror or has a mirror arm in the same chain', floor=35, floor_what='top-level arms of 8 chains')
 
     consts = mf.diffop_consts(repo)
@@ -251,3 +252,113 @@ def run(ctx):
         current['fn'] = fn
         for top in tops:
             mirror.check_chain(top, fn, swap_positions, report)
+
+    # ---------------------------------------------------------------- R05.4 mirrored statement pairs
+    mirror_statement_pairs(ctx, 'R05.4')
+
+
+ROLE_PKGS = ('nbdime.merging.', 'nbdime.prettyprint', 'nbdime.nbmergeapp', 'nbdime.webapp.')
+PAIR_EXEMPT = {
+    GEN + ':_split_addrange': 'places local before remote at a two-sided insertion by design (the exclusion in the property text)',
+    GEN + ':__unused__wrap_subconflicts': 'dead code (named unused)',
+}
+
+
+class _PairSigma(ast.NodeTransformer):
+    """sigma for one statement: role names, role attributes and role constants are swapped."""
+
+    def __init__(self, names):
+        self.names = names
+
+    def visit_Name(self, n):
+        m = mirror.mirror_name(n.id)
+        return ast.Name(id=m if (m and m in self.names) else n.id, ctx=n.ctx)
+
+    def visit_Attribute(self, n):
+        self.generic_visit(n)
+        if 'local' in n.attr or 'remote' in n.attr:
+            n.attr = mirror.mirror_name(n.attr)
+        return n
+
+    def visit_Constant(self, n):
+        if isinstance(n.value, str):
+            return ast.Constant(value=mirror.swap_const(n.value))
+        return n
+
+
+def _role_bearing(expr, names):
+    for n in ast.walk(expr):
+        if isinstance(n, ast.Name):
+            m = mirror.mirror_name(n.id)
+            if m and m in names and ('local' in n.id or 'remote' in n.id or n.id[0] in 'lr' or n.id[-1] in '01'):
+                return True
+        if isinstance(n, ast.Attribute) and ('local' in n.attr or 'remote' in n.attr):
+            return True
+        if isinstance(n, ast.Constant) and isinstance(n.value, str) and mirror.swap_const(n.value) != n.value:
+            return True
+    return False
+
+
+def _alpha_equal(a, b, free):
+    """Structural equality of two expressions modulo a consistent, injective renaming of the names in `free`
+    (cursor variables that come in unrelated pairs, e.g. i / j)."""
+    fwd, bwd = {}, {}
+
+    def eq(x, y):
+        if type(x) is not type(y):
+            return False
+        if isinstance(x, ast.Name):
+            if x.id == y.id:
+                return fwd.setdefault(x.id, y.id) == y.id and bwd.setdefault(y.id, x.id) == x.id
+            if x.id in free and y.id in free:
+                return fwd.setdefault(x.id, y.id) == y.id and bwd.setdefault(y.id, x.id) == x.id
+            return False
+        if isinstance(x, ast.AST):
+            for f in x._fields:
+                if f == 'ctx':
+                    continue
+                if not eq(getattr(x, f, None), getattr(y, f, None)):
+                    return False
+            return True
+        if isinstance(x, list):
+            return len(x) == len(y) and all(eq(p, q) for p, q in zip(x, y))
+        return x == y
+    return eq(a, b)
+
+
+def mirror_statement_pairs(ctx, rule, only=None):
+    """Adjacent assignments `X = E1 ; X' = E2` whose targets are a local/remote name pair must be mirror images:
+    E2 == sigma(E1).  A slip in one of the two (reading the other side's diff, the other side's cell ...) makes the
+    function treat the sides differently, which swapping the roles exposes."""
+    import copy
+    repo = ctx.repo
+    n = 0
+    for fid, fn in sorted(repo.functions.items()):
+        if not fid.startswith(ROLE_PKGS) or (only is not None and fid not in only):
+            continue
+        names = {x.id for x in ast.walk(fn) if isinstance(x, ast.Name)} | {a.arg for a in fn.args.args + fn.args.kwonlyargs}
+        free = {x for x in names if not (mirror.mirror_name(x) and mirror.mirror_name(x) in names)}
+        for node in walk_no_nested(fn):
+            for field in ('body', 'orelse', 'finalbody'):
+                blk = getattr(node, field, None)
+                if not isinstance(blk, list):
+                    continue
+                for s1, s2 in zip(blk, blk[1:]):
+                    if not (isinstance(s1, ast.Assign) and isinstance(s2, ast.Assign) and len(s1.targets) == 1 and len(s2.targets) == 1):
+                        continue
+                    t1, t2 = s1.targets[0], s2.targets[0]
+                    if not (isinstance(t1, ast.Name) and isinstance(t2, ast.Name) and mirror.mirror_name(t1.id) == t2.id):
+                        continue
+                    img = _PairSigma(names).visit(copy.deepcopy(s1.value))
+                    ok = _alpha_equal(img, s2.value, free)
+                    if not ok and not (_role_bearing(s1.value, names) or _role_bearing(s2.value, names)):
+                        continue        # sep0/sep1, m0/m1: numbered names that are not the two sides
+                    if fid in PAIR_EXEMPT:
+                        ctx.inst(rule, fid, '%s || %s' % (repo.norm(s1), repo.norm(s2)), True, 'exempt: ' + PAIR_EXEMPT[fid], s1, nontrivial=False)
+                        continue
+                    n += 1
+                    ctx.inst(rule, fid, '%s || %s' % (repo.norm(s1), repo.norm(s2)), ok,
+                             'the two assignments are mirror images of each other' if ok else
+                             'the assignment to %s is not the local/remote mirror image of the assignment to %s (expected `%s`): the two sides are treated differently'
+                             % (t2.id, t1.id, ' '.join(ast.unparse(ast.fix_missing_locations(img)).split())[:120]), s2)
+    return n
